@@ -262,6 +262,9 @@ func genMaterial(r *hx.Rng, d *sceneDesc) matDesc {
 	if r.Chance(1, 40) {
 		m.AlphaCut = fp(0.5) // most likely without MASK: the writers refuse the scene
 	}
+	if r.Chance(1, 4) {
+		m.Extras = hx.Pick(r, []int{1, 2, 3, -1})
+	}
 	return m
 }
 
@@ -303,7 +306,9 @@ func perturb(r *hx.Rng, m matDesc, d *sceneDesc) matDesc {
 		d.Textures = append(d.Textures, t)
 		return len(d.Textures) - 1
 	}
-	switch r.Intn(15) {
+	switch r.Intn(17) {
+	case 15, 16: // same material, other extras (fix fd7cca0)
+		m.Extras = hx.Pick(r, []int{0, 1, 2, 3, -1})
 	case 12:
 		if m.Pbr {
 			m.BaseTex = texVariant(m.BaseTex)
@@ -781,7 +786,12 @@ func fixedScenes() []sceneDesc {
 		Samplers:  []samplerDesc{{Name: "s", Mag: 9729, Min: 9987, WrapS: 10497, WrapT: 10497}},
 		Textures:  []texDesc{{URI: "a.png", Sampler: 0}, {URI: "a.png", Sampler: 0, Transform: 2}},
 		Materials: []matDesc{tc, td}, Models: []modelDesc{m(0, 0), m(0, 1)}})
-	// 27: 1024 GPU instances (an element count that is a whole number of 1024-element blocks), then a second model
+	// 27: materials that differ only in their extras ({"id": 1} / {"id": 2} / {"id": 1} again under another map / none / empty map)
+	e1, e2, e3, e4, e5 := plainMat("x"), plainMat("x"), plainMat("x"), plainMat("x"), plainMat("x")
+	e1.Extras, e2.Extras, e3.Extras, e5.Extras = 1, 2, 1, -1
+	out = append(out, sceneDesc{Meshes: []meshDesc{quad}, Materials: []matDesc{e1, e2, e3, e4, e5},
+		Models: []modelDesc{m(0, 0), m(0, 1), m(0, 2), m(0, 3), m(0, 4)}})
+	// 28: 1024 GPU instances (an element count that is a whole number of 1024-element blocks), then a second model
 	var many []instDesc
 	for i := 0; i < 1024; i++ {
 		many = append(many, instDesc{T: [3]fl{fl(i % 7), fl(i / 7), 0.25}, R: [4]fl{0, 0, 0, 1}, S: [3]fl{1, 1, fl(1 + i%3)}})
